@@ -46,7 +46,8 @@ func (i *iter) Next(ctx context.Context) (err error) {
 
 	if !i.moved {
 		i.moved = true
-		return nil
+		// the first key may be out of range as well, e.g. reverse iter has no lower bound
+		return i.checkBorder()
 	}
 
 	i.count++
